@@ -103,7 +103,7 @@ def run(m: Model, r: Report, tier: str) -> None:
             bound = tr.bind_call(m, f, c)
             for label, expr in wanted.items():
                 if bound is not None and label in bound:
-                    r.check(ast.unparse(bound[label]) == expr, "R4", f"{fq}#{label}",
+                    r.check(m.eqm(f, bound[label], expr), "R4", f"{fq}#{label}",
                             f"parameter {label} of {callee_suffix} receives `{ast.unparse(bound[label])}`, not `{expr}`", loc=f"{f.module.relpath}:{c.lineno}")
                     continue
                 if bound is not None and tr.callee_param_names(m, f, c) and label in tr.callee_param_names(m, f, c):
@@ -111,7 +111,8 @@ def run(m: Model, r: Report, tier: str) -> None:
                             f"parameter {label} of {callee_suffix} is not passed: `{expr}` ends up in {[k for k, v in bound.items() if ast.unparse(v) == expr] or 'no'} "
                             "parameter and the callee's default is used instead of the configured value", loc=f"{f.module.relpath}:{c.lineno}")
                     continue
-                r.check(expr in passed, "R4", f"{fq}#{label}",
+                passed_m = {m.mtext(f, a) for a in c.args} | {m.mtext(f, k.value) for k in c.keywords}
+                r.check(m.mpat(f, expr) in passed_m, "R4", f"{fq}#{label}",
                         f"{label} is not passed on unaltered to {callee_suffix} (arguments: {sorted(passed)}): a coercion (e.g. an Enum with "
                         "_missing_) changes values the user configured", loc=f"{f.module.relpath}:{c.lineno}")
     forwarding(f"{DOIP}.DoIPTransport.connect", "cls._connect", {"src_addr": "config.src_addr", "activation_type": "config.activation_type",
